@@ -63,3 +63,29 @@ Definition check_dcase ftbl stmts decls dtbl (c : dcase) : bool :=
   negb bad && tree_sim d (dc_expect c).
 
 Definition bad_dcases ftbl stmts decls dtbl (cs : list dcase) : list nat := bad_idx (check_dcase ftbl stmts decls dtbl) 0 cs.
+
+(* ---- tokens through the composed model --------------------------------------------------------- *)
+(* the byte lengths of the tokens, strings and bad spans the decorator emits for the go/ast tree,
+   in emission order, and those the restorer advances over for the decorated dst tree *)
+(* File.Imports aliases the ImportSpecs of the import declarations: the decorator emits their
+   fragments a second time, the restorer does not restore that list *)
+Definition without_imports (t : tree) : tree :=
+  match t with
+  | Node id k vals kids decs b a =>
+    if String.eqb k "File" then Node id k vals (filter (fun p => negb (String.eqb (fst p) "Imports")) kids) decs b a else t
+  end.
+
+Definition frag_token_lengths ftbl (t0 : tree) : list Z :=
+  let t := without_imports t0 in
+  flat_map (fun it => match snd it with PTok l | PStr l _ | PBad l => [l] | _ => [] end) (f_out (node_frags ftbl t)).
+
+From DV Require Import Model.Restore.
+
+Definition restore_token_lengths rtbl (d : tree) : list Z :=
+  flat_map (fun a => match a with AAdv l => [l] | _ => [] end) (flatten rtbl false (fun _ => None) d).
+
+Definition tokens_ok ftbl stmts decls dtbl rtbl (c : dcase) : bool :=
+  let '(d, bad) := run_dcase ftbl stmts decls dtbl c in
+  bad || list_eqb Z.eqb (restore_token_lengths rtbl d) (frag_token_lengths ftbl (fc_tree (dc_f c))).
+
+Definition bad_tokens ftbl stmts decls dtbl rtbl (cs : list dcase) : list nat := bad_idx (tokens_ok ftbl stmts decls dtbl rtbl) 0 cs.
